@@ -118,6 +118,9 @@ def run_group(ctx, prop, lean=True):
     ctx.assume('pyvc: home-made symbolic executor over the real AST (DESIGN 2.1); python ints = mathematical ints (exact); '
                'declared parameter types; lemma schemas of pyvc/specs.py as proved in lemmas/*.lean (correspondence by name, lemmas/manifest.json)')
     ctx.assume('z3 5.1 (python API), /usr/bin/cvc5 and /usr/bin/z3 4.8 for z3 unknowns')
+    from pyvc import specs as _specs
+    if todo and _specs.ASSUMED_SCHEMAS:
+        ctx.assume('ASSUMED LEMMAS (schemas instantiated in VCs without a Lean proof yet; validated by reading only): ' + ', '.join(_specs.ASSUMED_SCHEMAS))
     for (rel, qual), c in contracts.items():
         if c.get('assumed') and any(prop in cc.get('property', []) for cc in [c] + [x for _, x in todo]):
             ctx.assume('assumed contract {}:{} - {}'.format(rel, qual, c['assumed']))
